@@ -71,8 +71,8 @@ fn group(rep: &Report, idx: usize, base: &CCase, reps: usize, seed: u64, keep: b
         let obs = ccommon::run_case(&dir, &format!("r{}", k), &source, &case, &inj);
         rep.eval();
         res.runs += 1;
-        if obs.exit == Exit::Timeout {
-            rep.inconclusive("watchdog");
+        if obs.exit == Exit::Timeout || obs.exit.hit_cpu_limit() {
+            rep.inconclusive("watchdog / CPU budget of the case exhausted");
             continue;
         }
         if !obs.exit.ok() {
